@@ -45,6 +45,74 @@ def _ints(xs):
     return ",".join(str(int(x)) for x in xs) if len(xs) else "_"
 
 
+# ---------------------------------------------------------------- compress.py: functions found by what they contain
+_CSTRUCT = None
+
+
+def _compress_structure():
+    """Locate the functions of compress.py the model is about STRUCTURALLY (a rename of a private helper or of a local must not
+    break the tie): returns {'best': FunctionDef, 'smallest': …, 'decimals': …, 'data': …} plus the module's FunctionDefs."""
+    global _CSTRUCT
+    if _CSTRUCT is not None:
+        return _CSTRUCT
+    import ast
+    from common import paths
+    csrc = open(os.path.join(paths.SRC, "biotite/structure/io/pdbx/compress.py")).read()
+    tree = ast.parse(csrc)
+    funcs = [n for n in tree.body if isinstance(n, ast.FunctionDef)]
+
+    def lit_list_loops(fn):
+        out = []
+        for n in ast.walk(fn):
+            if isinstance(n, ast.For) and isinstance(n.iter, ast.List) and all(isinstance(e, ast.Constant) for e in n.iter.elts):
+                out.append(n)
+        return sorted(out, key=lambda x: (x.lineno, x.col_offset))
+
+    def np_type_loops(fn):
+        out = []
+        for n in ast.walk(fn):
+            if isinstance(n, ast.For) and isinstance(n.iter, ast.List) and n.iter.elts and all(
+                    isinstance(e, ast.Attribute) and re.fullmatch(r"u?int\d+", e.attr) for e in n.iter.elts):
+                out.append(n)
+        return sorted(out, key=lambda x: x.lineno)
+
+    def has_round_loop(fn):
+        # the decimal search: a loop (count(...) or range(...)) whose body calls np.round(<array>, <loop variable>)
+        for n in ast.walk(fn):
+            if isinstance(n, ast.For) and isinstance(n.target, ast.Name):
+                for c in ast.walk(n):
+                    if (isinstance(c, ast.Call) and isinstance(c.func, ast.Attribute) and c.func.attr == "round" and len(c.args) == 2
+                            and isinstance(c.args[1], ast.Name) and c.args[1].id == n.target.id):
+                        return n
+        return None
+
+    def has_len_eq(fn):
+        for c in ast.walk(fn):
+            if (isinstance(c, ast.Compare) and isinstance(c.left, ast.Call) and getattr(c.left.func, "id", "") == "len"
+                    and isinstance(c.ops[0], ast.Eq) and isinstance(c.comparators[0], ast.Constant)):
+                return c
+        return None
+
+    best = [f for f in funcs if len(lit_list_loops(f)) == 3]
+    smallest = [f for f in funcs if len(np_type_loops(f)) == 2]
+    decimals = [f for f in funcs if has_round_loop(f) is not None]
+    data = [f for f in funcs if has_len_eq(f) is not None and any(isinstance(c, ast.Call) and getattr(c.func, "id", "") == "FixedPointEncoding" for c in ast.walk(f))]
+    if not (len(best) == len(smallest) == len(decimals) == len(data) == 1):
+        raise ValueError("compress.py no longer has the shape the translator reads: "
+                         f"candidate loops in {[f.name for f in best]}, type ladders in {[f.name for f in smallest]}, "
+                         f"decimal search in {[f.name for f in decimals]}, single-value shortcut in {[f.name for f in data]}")
+    _CSTRUCT = {"best": best[0], "smallest": smallest[0], "decimals": decimals[0], "data": data[0], "funcs": funcs,
+                "lit_list_loops": lit_list_loops, "np_type_loops": np_type_loops, "round_loop": has_round_loop, "len_eq": has_len_eq}
+    return _CSTRUCT
+
+
+def _compress_private(which):
+    """The private helper of compress.py the adapter needs, whatever it is called today."""
+    import importlib
+    mod = importlib.import_module("biotite.structure.io.pdbx.compress")
+    return getattr(mod, _compress_structure()[which].name)
+
+
 # ---------------------------------------------------------------- translator (Gen)
 def gen_lean():
     from common import paths
@@ -80,45 +148,55 @@ def gen_lean():
     # ---- compress.py: the candidate space of _find_best_integer_compression, the type ladders of _to_smallest_integer_type,
     # the guards of _get_decimal_places (Python ast, not regex)
     import ast
-    csrc = open(os.path.join(paths.SRC, "biotite/structure/io/pdbx/compress.py")).read()
-    ctree = ast.parse(csrc)
-    funcs = {n.name: n for n in ast.walk(ctree) if isinstance(n, ast.FunctionDef)}
+    global _CSTRUCT
+    _CSTRUCT = None
+    cs = _compress_structure()
+    funcs = {f.name: f for f in cs["funcs"]}
 
     def lit(node):
         return ast.literal_eval(node)
 
-    fb = funcs["_find_best_integer_compression"]
-    loops = {}
-    for n in ast.walk(fb):
-        if isinstance(n, ast.For) and isinstance(n.target, ast.Name):
-            loops[n.target.id] = lit(n.iter)
+    fb = cs["best"]
+    dom = [lit(n.iter) for n in cs["lit_list_loops"](fb)]          # outermost first: delta, run-length, packing
+    loops = {"use_delta": dom[0], "use_run_length": dom[1], "packed_byte_count": dom[2]}
     # encoding classes in the order in which a chain is extended (first instantiation in source order)
     stage_order = []
     for n in sorted((x for x in ast.walk(fb) if isinstance(x, ast.Call) and isinstance(x.func, ast.Name) and x.func.id.endswith("Encoding")),
                     key=lambda x: (x.lineno, x.col_offset)):
         if n.func.id not in stage_order:
             stage_order.append(n.func.id)
-    # how a chain is extended: `<later> = <earlier> + [encoding]` — (target, source) pairs in source order
+    # how a chain is extended: `<later> = <earlier> + [<one element>]` — (target, source) pairs in source order, locals renamed by
+    # order of first appearance (a rename of a local is not a change)
     extends = []
+    seen = {}
+
+    def canon(name):
+        return seen.setdefault(name, f"v{len(seen)}")
+
     for n in sorted((x for x in ast.walk(fb) if isinstance(x, ast.Assign)), key=lambda x: x.lineno):
         v = n.value
         if (isinstance(v, ast.BinOp) and isinstance(v.op, ast.Add) and isinstance(v.left, ast.Name) and isinstance(v.right, ast.List)
                 and len(n.targets) == 1 and isinstance(n.targets[0], ast.Name)):
-            extends.append((n.targets[0].id, v.left.id))
-    ts = funcs["_to_smallest_integer_type"]
+            extends.append((canon(n.targets[0].id), canon(v.left.id)))
     ladders = []
-    for n in sorted((x for x in ast.walk(ts) if isinstance(x, ast.For)), key=lambda x: x.lineno):
-        if isinstance(n.iter, ast.List):
-            # numpy type names in the model's spelling: uint8 -> u8, int64 -> i64
-            ladders.append([e.attr.replace("uint", "u").replace("int", "i") for e in n.iter.elts if isinstance(e, ast.Attribute)])
-    gd = funcs["_get_decimal_places"]
-    dec_guards = [lit(c.comparators[0]) for c in ast.walk(gd)
-                  if isinstance(c, ast.Compare) and isinstance(c.left, ast.Name) and c.left.id == "decimals" and isinstance(c.ops[0], ast.Gt)]
-    cd = funcs["_compress_data"]
-    single = [lit(c.comparators[0]) for c in ast.walk(cd)
-              if isinstance(c, ast.Compare) and isinstance(c.left, ast.Call) and getattr(c.left.func, "id", "") == "len" and isinstance(c.ops[0], ast.Eq)]
-    if set(loops) != {"use_delta", "use_run_length", "packed_byte_count"} or len(ladders) != 2 or len(dec_guards) != 1 or len(single) != 1:
-        raise ValueError(f"compress.py no longer has the shape the translator reads: loops={loops} ladders={ladders} guards={dec_guards} single={single}")
+    for n in cs["np_type_loops"](cs["smallest"]):
+        # numpy type names in the model's spelling: uint8 -> u8, int64 -> i64
+        ladders.append([e.attr.replace("uint", "u").replace("int", "i") for e in n.iter.elts])
+    # the decimal search gives up beyond N decimals: either `if <var> > N: return None` inside an unbounded count(), or a bounded range(_, N + 1)
+    loop = cs["round_loop"](cs["decimals"])
+    var = loop.target.id
+    dec_guards = [lit(c.comparators[0]) for c in ast.walk(loop)
+                  if isinstance(c, ast.Compare) and isinstance(c.left, ast.Name) and c.left.id == var and isinstance(c.ops[0], ast.Gt)
+                  and isinstance(c.comparators[0], ast.Constant)]
+    it = loop.iter
+    if isinstance(it, ast.Call) and getattr(it.func, "id", "") == "range" and len(it.args) == 2:
+        try:
+            dec_guards.append(int(eval(compile(ast.Expression(it.args[1]), "<range stop>", "eval"), {"__builtins__": {}})) - 1)
+        except Exception:
+            pass
+    single = [lit(cs["len_eq"](cs["data"]).comparators[0])]
+    if len(ladders) != 2 or len(dec_guards) != 1 or len(single) != 1 or len(dom) != 3:
+        raise ValueError(f"compress.py no longer has the shape the translator reads: loops={dom} ladders={ladders} guards={dec_guards} single={single}")
 
     def lbool(xs):
         return "[" + ", ".join("true" if x else "false" for x in xs) + "]"
@@ -830,7 +908,7 @@ def run_impl(case):
             out.append(_fmt(lambda: "ok " + _ints(E.ByteArrayEncoding(type=np.dtype(NP[t])).decode(bytes(bs)))))
         elif w[0] == "decimals":
             from fractions import Fraction
-            from biotite.structure.io.pdbx.compress import _get_decimal_places
+            _get_decimal_places = _compress_private("decimals")
             tol = float(Fraction(w[2]))
             xs = [float(Fraction(x)) for x in w[3].split(",")]
 
@@ -839,7 +917,7 @@ def run_impl(case):
                     return f"ok {_get_decimal_places(np.array(xs, dtype=np.float64), tol)}"
             out.append(_fmt(fdp))
         elif w[0] == "smallest":
-            from biotite.structure.io.pdbx.compress import _to_smallest_integer_type
+            _to_smallest_integer_type = _compress_private("smallest")
             xs = _parse(w[1])
 
             def fsm():
